@@ -180,6 +180,18 @@ def handle (d : DState) (line : String) : Except String (DState × String) := do
         let p ← getP d (← arg a "id"); let c ← pCfg a
         let γ ← pRat (← arg a "gamma"); let V ← pList pRat (← arg a "V"); let pol ← pList pNat (← arg a "pol")
         pure (d, s!"values={fList fRat (evalSweep p.P c γ pol V 0)}")
+    | "evaluate" => do
+        let p ← getP d (← arg a "id"); let c ← pCfg a
+        let γ ← pRat (← arg a "gamma"); let ε ← pRat (← arg a "eps")
+        let V ← pList pRat (← arg a "V"); let pol ← pList pNat (← arg a "pol")
+        let budget ← pNat (← arg a "budget")
+        let test := if argD a "test" "span" = "max_diff" then ConvTest.maxDiff else ConvTest.span
+        match threshold γ ε with
+        | none => pure (d, "error=OverflowError")
+        | some thr =>
+          let out := evaluate p.P c γ thr test pol budget V
+          let m := convMeasure test (evalSweep p.P c γ pol out 0) out
+          pure (d, s!"values={fList fRat out} converged={decide (m < thr)} margin={fRat (rabs (m - thr))}")
     | "initvalues" => do
         let p ← getP d (← arg a "id"); let c ← pCfg a
         pure (d, s!"values={fList fRat (initValues p.P c 0)}")
@@ -205,6 +217,14 @@ def handle (d : DState) (line : String) : Except String (DState × String) := do
           let reset := if argD a "reset" "0" = "1" then some st.values else none
           let sv : Solver := { kind, pid, c, γ, ε, thr, test, period, clear, budget, reset, f, st }
           pure ({ d with solvers := (sid, sv) :: d.solvers.filter (·.1 ≠ sid) }, s!"ok thr={fRat thr} " ++ fState st false 0 [])
+    | "setpolicy" => do
+        let sid ← arg a "sid"
+        match d.solvers.lookup sid with
+        | none => throw "unknown solver"
+        | some sv =>
+          let pol ← pList pNat (← arg a "pol")
+          let sv' := { sv with st := { sv.st with policy := some pol } }
+          pure ({ d with solvers := (sid, sv') :: d.solvers.filter (·.1 ≠ sid) }, "ok")
     | "setvalues" => do
         let sid ← arg a "sid"
         match d.solvers.lookup sid with
